@@ -31,7 +31,8 @@ RULE = ("Enumerated part: files of 0, 1, 16384, 16385, 40000 bytes, the "
         "transit link cut at every record boundary, inside the length prefix, "
         "after it, mid-record, one byte before the end, inside the handshake, "
         "and before / inside the acknowledgement (other direction); one-byte "
-        "corruption at the same points. Seeded part: one evaluation = one "
+        "corruption at the same points; retry after an interrupted attempt "
+        "(its partial <name>.tmp of 0 / 1 / 16384 bytes still on disk). Seeded part: one evaluation = one "
         "simulated transfer of a tape-generated payload (text with quotes / "
         "backslashes / control / non-BMP characters; files of sizes around "
         "record multiples; directory trees with empty directories, nesting, "
@@ -106,6 +107,9 @@ def sweep(tier):
             out.append({"payload": ["file", size], "fault": ["r2s", "cut", p]})
         for p in (HS_R2S + 1, HS_R2S + 30, HS_R2S + 60):
             out.append({"payload": ["file", size], "fault": ["r2s", "flip", p]})
+    for size in (1, 16385, 40000):
+        for k in (0, 1, 16384):
+            out.append({"payload": ["file", size], "stale": k})
     return out
 
 
@@ -206,6 +210,20 @@ def _run(seed, tape, opts, w):
     else:
         make_tree(tape, src)
         extra = [name + ("/" if tape.choose(3, "slash") == 0 else "")]
+    # history: an earlier attempt at the same transfer was interrupted and
+    # left its partial '<name>.tmp' behind (the only durable trace of it)
+    stale = opts.get("stale")
+    if stale is None and not fixed and payload[0] == "file" and \
+            tape.choose(4, "stale?") == 0:
+        stale = tape.pick((0, 1, 16384, 30000), "stale_n")
+    if stale is not None and payload[0] == "file":
+        with open(src, "rb") as f:
+            prefix = f.read()[:stale]
+        if tape.choose(3, "stale_garbage") == 0:
+            prefix += b"\xee" * 7
+        with open(os.path.join(w.recv_dir, name + ".tmp"), "wb") as f:
+            f.write(prefix)
+        sim.note("fault.stale_tmp_from_interrupted_attempt")
     want = snapshot(w.send_dir)
     # faults on the transit link
     cors = {}
